@@ -396,6 +396,9 @@ struct CaseIn {
     /// Bitfinex only: channel ids the simulated venue hands out, in order of the distinct
     /// (channel, symbol) subscription requests it receives
     bfx_cids: Vec<u64>,
+    /// Bitfinex only: unsolicited confirmations (symbol, channel id) for markets nobody asked
+    /// for, sent by the simulated venue before the real ones (the validator must ignore them)
+    bfx_extra: Vec<(String, u64)>,
     msgs: Vec<MsgIn>,
 }
 impl CaseIn {
@@ -403,6 +406,7 @@ impl CaseIn {
         json!({"exch": self.ex.name(), "sk": self.sk.name(), "flavour": self.flavour.name(),
                "subs": self.subs.iter().map(|s| s.to_json()).collect::<Vec<_>>(),
                "bfx_cids": self.bfx_cids,
+               "bfx_extra": self.bfx_extra.iter().map(|(a, b)| json!([a, b])).collect::<Vec<_>>(),
                "msgs": self.msgs.iter().map(|m| m.to_json()).collect::<Vec<_>>()})
     }
     fn from_json(v: &Value) -> CaseIn {
@@ -412,6 +416,11 @@ impl CaseIn {
             flavour: Flavour::parse(v["flavour"].as_str().unwrap()),
             subs: v["subs"].as_array().unwrap().iter().map(SubIn::from_json).collect(),
             bfx_cids: v["bfx_cids"].as_array().map(|a| a.iter().map(|x| x.as_u64().unwrap()).collect()).unwrap_or_default(),
+            bfx_extra: v
+                .get("bfx_extra")
+                .and_then(|a| a.as_array())
+                .map(|a| a.iter().map(|x| (x[0].as_str().unwrap().to_string(), x[1].as_u64().unwrap())).collect())
+                .unwrap_or_default(),
             msgs: v["msgs"].as_array().unwrap().iter().map(MsgIn::from_json).collect(),
         }
     }
@@ -627,6 +636,7 @@ struct RunOut {
 async fn bitfinex_venue(
     listener: tokio::net::TcpListener,
     cids: Vec<u64>,
+    extra: Vec<(String, u64)>,
 ) -> Vec<(String, String, u64)> {
     let (stream, _) = listener.accept().await.expect("accept");
     let mut ws = tokio_tungstenite::accept_async(stream).await.expect("ws accept");
@@ -650,6 +660,15 @@ async fn bitfinex_venue(
     .await
     .expect("send info");
     let mut confs = vec![];
+    for (sym, cid) in extra.iter().filter(|(sy, _)| !reqs.iter().any(|(_, r)| r == sy)) {
+        confs.push(("trades".to_string(), sym.clone(), *cid));
+        ws.send(WsMessage::text(
+            json!({"event": "subscribed", "channel": "trades", "chanId": cid, "symbol": sym, "pair": &sym[sym.len().min(1)..]}).to_string(),
+        ))
+        .await
+        .expect("send extra subscribed");
+    }
+    let n_extra = confs.len();
     for (i, (ch, sym)) in reqs.iter().enumerate() {
         // (a shrunk input may list fewer ids than there are requests)
         let cid = cids.get(i).copied().unwrap_or(900_000 + i as u64);
@@ -660,7 +679,7 @@ async fn bitfinex_venue(
         .await
         .expect("send subscribed");
     }
-    for (_, _, cid) in &confs {
+    for (_, _, cid) in confs.iter().skip(n_extra) {
         // initial snapshot of the channel
         ws.send(WsMessage::text(format!("[{cid},[[1225484398,1665452200022,0.25,19027.25]]]")))
             .await
@@ -699,7 +718,7 @@ where
             attempt += 1;
             let listener = tokio::net::TcpListener::bind("127.0.0.1:0").await.expect("bind");
             let port = listener.local_addr().unwrap().port();
-            let venue = tokio::spawn(bitfinex_venue(listener, case.bfx_cids.clone()));
+            let venue = tokio::spawn(bitfinex_venue(listener, case.bfx_cids.clone(), case.bfx_extra.clone()));
             let mut ws = connect(format!("ws://127.0.0.1:{port}")).await.expect("connect loopback");
             for m in ws_subscriptions.iter().cloned() {
                 ws.send(m).await.expect("send request");
@@ -1157,7 +1176,10 @@ fn gen_msgs(r: &mut Rng, case: &CaseIn, n_msgs: usize, adversarial: bool) -> Vec
                 let (b, q) = *r.pick(&RELATED);
                 let other = venue_symbol(ex, b, q, &su.kind);
                 {
-                    let c2 = cid + 1 + r.below(1000);
+                    let c2 = match case.bfx_extra.first() {
+                        Some((_, c)) if r.chance(1, 2) => *c,
+                        _ => cid + 1 + r.below(1000),
+                    };
                     data_msg(r, ex, sk, &chan, &other, c2, n_items)
                 }
             }
@@ -1256,7 +1278,13 @@ fn gen_case(r: &mut Rng, pair: (Ex, Sk, &[u8]), fl: Flavour, adversarial: bool, 
             }
         }
     }
-    let mut case = CaseIn { ex, sk, flavour: fl, subs, bfx_cids, msgs: vec![] };
+    let mut bfx_extra = vec![];
+    if ex == Ex::Bitfinex && r.chance(1, 2) {
+        let (b, q) = *r.pick(&RELATED);
+        let c = 50_000 + r.below(1000);
+        bfx_extra.push((format!("t{}{}X", b.to_uppercase(), q.to_uppercase()), c));
+    }
+    let mut case = CaseIn { ex, sk, flavour: fl, subs, bfx_cids, bfx_extra, msgs: vec![] };
     case.msgs = gen_msgs(r, &case, n_msgs, adversarial);
     case
 }
@@ -1281,7 +1309,8 @@ fn table(em: &mut Emitter, rt: &tokio::runtime::Runtime, r: &mut Rng) {
                 };
                 let subs = vec![mk(11, "Btc", "usdt", &k1), mk(7, "eth", "BTC", &k2), mk(23, "btcd", "usd", &k1)];
                 let bfx_cids = if ex == Ex::Bitfinex { vec![420191, 17, 2203] } else { vec![] };
-                let mut case = CaseIn { ex, sk, flavour: fl, subs, bfx_cids: bfx_cids.clone(), msgs: vec![] };
+                let bfx_extra = if ex == Ex::Bitfinex { vec![("tSOLUSD".to_string(), 5u64)] } else { vec![] };
+                let mut case = CaseIn { ex, sk, flavour: fl, subs, bfx_cids: bfx_cids.clone(), bfx_extra, msgs: vec![] };
                 let multi = batch_venue(ex, sk);
                 let syms: Vec<String> = case.subs.iter().map(|su| sub_symbol(ex, fl, su)).collect();
                 let chan = venue_chan(ex, &k1).to_string();
@@ -1326,7 +1355,7 @@ fn table(em: &mut Emitter, rt: &tokio::runtime::Runtime, r: &mut Rng) {
                 subs.push(SubIn { key: 100 + d as u64, base: "btc".into(), quote: "usd".into(),
                                   name: venue_symbol(ex, "btc", "usd", &kind), kind });
             }
-            let mut case = CaseIn { ex, sk: Sk::Trades, flavour: Flavour::Keyed, subs, bfx_cids: vec![], msgs: vec![] };
+            let mut case = CaseIn { ex, sk: Sk::Trades, flavour: Flavour::Keyed, subs, bfx_cids: vec![], bfx_extra: vec![], msgs: vec![] };
             case.msgs = case
                 .subs
                 .clone()
